@@ -264,18 +264,25 @@ def pred_direction(v, g):
     _, HEF, _ = imports()
     d = len(v)
     h = HEF(make_stub(g), H.TOL, 10, 1.0)
-    arr = np.array(v, dtype=float)
-    r, err = call(h.check_eigenvector_direction, arr, np.zeros(d))
-    if err:
-        return ("check_eigenvector_direction:raises", f"raised {err} for v={v}, g={g}")
-    r = np.array(r)
     v0, g0 = np.array(v, dtype=float), np.array(g, dtype=float)
-    if not (np.array_equal(r, v0) or np.array_equal(r, -v0)):
-        return ("check_eigenvector_direction:not-plus-minus-v", f"v={v}, g={g}: returned {r.tolist()}")
-    ov = float(np.dot(r, g0))
-    if ov < -1e-12 * max(1.0, float(np.linalg.norm(v0) * np.linalg.norm(g0))):
-        return ("check_eigenvector_direction:downhill",
-                f"v={v}, g={g}: the direction handed on {r.tolist()} has overlap {ov} with the gradient")
+    # the same direction in three memory layouts: a fresh array, a column of a matrix (what np.linalg.eigh hands back) and
+    # every second element of a longer array — a direction is a direction
+    mat = np.zeros((d, 3))
+    mat[:, 1] = v0
+    long = np.zeros(2 * d)
+    long[::2] = v0
+    for layout, arr in (("contiguous", np.array(v, dtype=float)), ("matrix-column", mat[:, 1]), ("strided", long[::2])):
+        r, err = call(h.check_eigenvector_direction, arr, np.zeros(d))
+        if err:
+            return ("check_eigenvector_direction:raises", f"raised {err} for v={v} ({layout}), g={g}")
+        r = np.array(r)
+        if not (np.array_equal(r, v0) or np.array_equal(r, -v0)):
+            return ("check_eigenvector_direction:not-plus-minus-v", f"v={v} ({layout}), g={g}: returned {r.tolist()}")
+        ov = float(np.dot(r, g0))
+        if ov < -1e-12 * max(1.0, float(np.linalg.norm(v0) * np.linalg.norm(g0))):
+            return ("check_eigenvector_direction:downhill",
+                    f"v={v} (given as a {layout} array), g={g}: the direction handed on {r.tolist()} has overlap {ov} "
+                    f"with the gradient")
     return None
 
 
@@ -313,6 +320,9 @@ def pred_direction_walk(points, vs):
     return None
 
 
+RATIOS: list = []
+
+
 def pred_eigen(spec: dict, x, np_seed: int, chain: dict | None = None):
     """get_smallest_eigenvector against dense eigh of the known Hessian (interior point), or unit
     norm / no outward component (boundary point)"""
@@ -341,7 +351,8 @@ def pred_eigen(spec: dict, x, np_seed: int, chain: dict | None = None):
         if orng.random() < 0.5:
             opts = {"max_uphill_step_size": orng.choice([0.05, 0.3, 5.0, 20.0, 50.0]),
                     "min_uphill_step_size": orng.choice([1e-7, 1e-5, 1e-3]),
-                    "positive_eigenvalue_step": orng.choice([0.01, 0.1, 1.0])}
+                    "positive_eigenvalue_step": orng.choice([0.01, 0.1, 1.0]),
+                    "steepest_descent_conv_crit": orng.choice([1e-6, 1e-4, 1e-2])}
         h = HEF(pot, orng.choice([1e-4, 1e-2, 1e-6]), orng.choice([10, 3, 200]), orng.choice([0.8, 0.05, 5.0]), **opts)
         h.remove_trans_rot = False
         iv = h.generate_random_vector(d)
@@ -387,6 +398,19 @@ def pred_eigen(spec: dict, x, np_seed: int, chain: dict | None = None):
             # difference of the gradient along a unit vector with the documented displacement 1e-3 is off by at most
             # sum a_k |w_k|^4 h^2 / 6; the Rayleigh quotient at the converged vector adds second-order terms only
             fd = float(np.sum(np.abs(pot.a) * np.sum(pot.w ** 2, axis=1) ** 2)) * (1e-3) ** 2 / 6.0
+            # ... and the direction: the search stops when the gradient of the Rayleigh quotient, 2(Hv - lambda v), is below
+            # the REQUESTED eigenvalue criterion (default 1e-5) in every component, so sin(angle to the softest mode) is at
+            # most (sqrt(d) * crit / 2 + fd) / gap; a factor 4 of slack
+            crit = 1e-5
+            sin_a = math.sqrt(max(0.0, 1.0 - float(np.dot(v, U[:, 0])) ** 2))
+            bound = 4.0 * (math.sqrt(d) * crit + fd) / float(w[1] - w[0]) if d >= 2 else None
+            RATIOS.append(sin_a / bound if bound else 0.0)
+            if bound is not None and sin_a > bound and nit is not None:
+                return ("get_smallest_eigenvector:eigenvector-beyond-requested-accuracy",
+                        f"returned direction makes an angle with the softest mode of sine {sin_a:.3e} at {list(x)} (d={d}, gap "
+                        f"{float(w[1] - w[0]):.3g}); with the requested eigenvalue criterion {crit} and the finite-difference "
+                        f"error {fd:.2e} it is at most {bound:.3e} (search options: steepest-descent criterion "
+                        f"{getattr(h, 'steepest_descent_conv_crit', None)})"), None
             if abs(ev - w[0]) > 2.0 * fd + 2e-5 * scale:
                 return ("get_smallest_eigenvector:eigenvalue-beyond-finite-difference-accuracy",
                         f"returned eigenvalue {ev!r}, lowest Hessian eigenvalue {w[0]!r} at {list(x)} (d={d}): off by "
